@@ -228,6 +228,7 @@ func TestC11(t *testing.T) {
 		}
 		var canon strings.Builder
 		lateRelease, outOfOrder := false, false
+		keptGate, twoInside := false, false
 		restPatches := 0
 		pushesSinceHeld := map[int]int{} // gate seq -> pushes committed after it was held
 		step := func(a l1Action) {
@@ -269,6 +270,36 @@ func TestC11(t *testing.T) {
 				}
 				if pushesSinceHeld[pend[pi].Seq] > 0 {
 					lateRelease = true
+				}
+				if lateReply && rapid.IntRange(0, 1).Draw(rt, "keep_the_gate") == 0 {
+					// only this update runs on; the gate stays: an update that was waiting for the update lock takes it,
+					// reads the log and is held in its turn, and so is every update that starts later. (Two updates of
+					// one key inside the lock at once can only be seen like this.)
+					c.j.add(map[string]interface{}{"k": "release-keeping-the-gate", "index": pi, "of": len(pend)})
+					canon.WriteString(fmt.Sprintf("release-keep(%d/%d);", pi, len(pend)))
+					delete(pushesSinceHeld, pend[pi].Seq)
+					userNS := w.env.DBName + "." + w.col
+					before := len(w.env.Mongo.History(userNS))
+					w.env.Mongo.Release(pend[pi].Seq)
+					waitUntil(3*time.Second, func() bool { return len(w.env.Mongo.History(userNS)) > before })
+					time.Sleep(2 * time.Millisecond)
+					keptGate = true
+					w.noRebuild = true
+					err := w.checkSnapshots()
+					w.noRebuild = false
+					if err != nil {
+						c.failf("after releasing one held snapshot update (the others stay held): %v", err)
+					}
+					perKey := map[string]int{}
+					for _, p := range w.env.Mongo.Pending() {
+						perKey[fmt.Sprint(bget(p.Body, "filter"))]++
+					}
+					for _, n := range perKey {
+						if n > 1 {
+							twoInside = true
+						}
+					}
+					continue
 				}
 				c.j.add(map[string]interface{}{"k": "release", "index": pi, "of": len(pend)})
 				canon.WriteString(fmt.Sprintf("release(%d/%d);", pi, len(pend)))
@@ -357,6 +388,12 @@ func TestC11(t *testing.T) {
 		}
 		if restPatches > 0 {
 			labels = append(labels, "rest-patch-in-the-history")
+		}
+		if keptGate {
+			labels = append(labels, "one-update-released-while-the-others-stay-held")
+		}
+		if twoInside {
+			labels = append(labels, "two-held-updates-of-one-key-have-read-the-log")
 		}
 		if lateReply {
 			labels = append(labels, "held-at-reply-of-log-read")
